@@ -176,7 +176,7 @@ def _gen_xs(rnd):
         api = rnd.choice(["explode", "explode", "substitute", "foreach"])
         raising = rnd.random() < 0.5
         st = dict(api=api, n=rnd.choice([1, 1, 2]), raise_at=rnd.choice(outs) if raising else None,
-                  exc=rnd.choice([1, 2, 2, 3, 4, 5, 6, 8, 9, 10, 20, 30, 7]), fresh=rnd.random() < 0.5)
+                  exc=rnd.choice([1, 2, 2, 3, 4, 5, 6, 8, 9, 10, 20, 30, 7] + list(range(40, 46)) + list(range(47, 55))), fresh=rnd.random() < 0.5)
         if api == "explode" and rnd.random() < 0.3:
             st["lim"] = ["q", 1, rnd.choice([2, 3, 5, 9])]  # a limit of the other kind, same predicate object
         steps.append(st)
@@ -196,7 +196,7 @@ def generate(rnd, tier, scale):
         for f in fns:
             for j in range(len(f["acts"])):
                 if rnd.random() < 0.22:
-                    f["acts"][j] = ["throw", rnd.choice([0, 0, 1, 10, 11, 12, 20, 21, 30, 31, 2, 3, 4, 5, 6, 7, 8, 9])]
+                    f["acts"][j] = ["throw", rnd.choice([0, 0, 1, 10, 11, 12, 20, 21, 30, 31, 2, 3, 4, 5, 6, 7, 8, 9] + list(range(40, 46)) + list(range(47, 55)))]
         calls = []
         for _ in range(rnd.randint(2, 5)):
             calls.append([rnd.randrange(len(fns)), rnd.randrange(len(srclists)), E.rand_limit(rnd, ("none", "int", "int", "frac", "bad"))])
